@@ -3,6 +3,7 @@
 package worlds
 
 import (
+	"os"
 	"bytes"
 	"fmt"
 	"sort"
@@ -49,7 +50,75 @@ type c12Key struct {
 	last  time.Time // last instant Current handed it out
 }
 
+// c12LongHistory: one provider over some 180 years of daily (and longer) renewals - far
+// more rotations than a 16-bit identifier could number: identifiers still never repeat,
+// and what is handed out is valid when handed out.
+func c12LongHistory(r *simcore.Run) any {
+	activate(r)
+	tp := r.Tape
+	prov := ntske.NewProvider()
+	start := time.Now()
+	seen := map[int][]byte{}
+	last := -1
+	n := 66000 + tp.Intn(3000, "rotations")
+	if v := os.Getenv("SIM_C12_LONG"); v != "" {
+		fmt.Sscan(v, &n)
+	}
+	gaps := []time.Duration{c12Renewal + time.Second, c12Renewal + time.Second, 25 * time.Hour, 30 * time.Hour, c12Validity + time.Second, 80 * time.Hour}
+	generated := 0
+	go func() {
+		simcore.SetTag("c0")
+		defer r.Finish()
+		for i := 0; i < n && r.Violation() == nil; i++ {
+			// (mostly the shortest gap that renews: the bubble's clock, which starts in 2000,
+			// must stay below the year 2262, where nanoseconds since 1970 leave int64)
+			gap := gaps[0]
+			if tp.Bool(1, 50, "longer") {
+				gap = gaps[tp.Intn(len(gaps), "gap")]
+			}
+			if r.Sleep("gap", nil, gap).Killed {
+				return
+			}
+			now := time.Now()
+			k := prov.Current()
+			if now.Before(k.Validity.NotBefore) || now.After(k.Validity.NotAfter) {
+				r.Fail("C12", "current/not-valid-now", "after %d renewals: key %d handed out at %v is valid %v..%v", generated, k.ID,
+					now.Sub(start), k.Validity.NotBefore.Sub(start), k.Validity.NotAfter.Sub(start))
+				return
+			}
+			if k.ID != last {
+				if _, dup := seen[k.ID]; dup {
+					r.Fail("C12", "current/id-reused", "after %d renewals (%v): identifier %d is handed out for a second key", generated, now.Sub(start), k.ID)
+					return
+				}
+				seen[k.ID] = append([]byte(nil), k.Value[:4]...)
+				last = k.ID
+				generated++
+			}
+			if i%64 == 0 {
+				if g, ok := prov.Get(k.ID); !ok || g.ID != k.ID {
+					r.Fail("C12", "get/lost-within-2d", "after %d renewals: Get(%d) fails for the key Current() has just handed out", generated, k.ID)
+					return
+				}
+			}
+		}
+	}()
+	reason := r.Loop(1_000_000, 0)
+	r.SetVT()
+	r.Drain()
+	if reason != "" && r.Violation() == nil {
+		r.Fail("harness", "c12long/"+reason, "scheduler stopped: %s", reason)
+	}
+	r.Fault("idle-gap-hours-to-days")
+	r.Probe("long-history")
+	r.Count("keys", int64(generated))
+	return map[string]any{"long_history": true, "renewals": generated, "virtual_years": time.Since(start).Hours() / 8766}
+}
+
 func c12World(t *testing.T, r *simcore.Run) any {
+	if r.Index%2048 == 2047 {
+		return c12LongHistory(r)
+	}
 	activate(r)
 	tp := r.Tape
 	// Swarm knobs.
@@ -370,7 +439,7 @@ func init() {
 	simcore.Registry["C12"] = &simcore.Spec{
 		World: c12World,
 		NonTrivial: func(r *simcore.Run) bool {
-			return r.Probes["keys-seen"] >= 2 && r.Probes["get-hit"] > 0
+			return (r.Probes["keys-seen"] >= 2 && r.Probes["get-hit"] > 0) || r.Probes["long-history"] > 0
 		},
 	}
 }
